@@ -21,10 +21,15 @@ import (
 
 type c14Ctx struct {
 	parent *c14Ctx
-	site   *ssa.Call
+	site   ssa.CallInstruction // *ssa.Call, or the *ssa.Defer whose callee runs at `at`
+	at     *ssa.RunDefers      // for deferred callees: the exit they run at
 	fn     *ssa.Function
 	depth  int
 	kids   map[*ssa.Call]*c14Ctx
+	// dkids: per RunDefers of fn, the deferred callees that may run there (LIFO order);
+	// dmust tells whether the defer statement is executed on every path to that exit
+	dkids map[*ssa.RunDefers][]*c14Ctx
+	dmust map[*c14Ctx]bool
 	// virtual: the callee is a callback handed to the call (arguments do not map to parameters)
 	virtual bool
 }
@@ -34,7 +39,8 @@ type c14View struct {
 	ctxs []*c14Ctx
 	byFn map[*ssa.Function][]*c14Ctx
 	// extra parameter bindings (receivers of method values used as callbacks)
-	bind map[*ssa.Parameter][]ssa.Value
+	bind  map[*ssa.Parameter][]ssa.Value
+	roots []*ssa.Function // additional entry points (AddRoot)
 }
 
 type c14Pt struct {
@@ -64,6 +70,7 @@ func c14NewViewV(root *ssa.Function, maxDepth int, expand func(g *ssa.Function) 
 		if cx.depth >= maxDepth {
 			continue
 		}
+		v.expandDefers(cx, expand)
 		for _, b := range cx.fn.Blocks {
 			for _, in := range b.Instrs {
 				call, ok := in.(*ssa.Call)
@@ -90,12 +97,75 @@ func c14NewViewV(root *ssa.Function, maxDepth int, expand func(g *ssa.Function) 
 					continue
 				}
 				k := &c14Ctx{parent: cx, site: call, fn: g, depth: cx.depth + 1, kids: map[*ssa.Call]*c14Ctx{}, virtual: virtual}
+				if cx.kids == nil {
+					cx.kids = map[*ssa.Call]*c14Ctx{}
+				}
 				cx.kids[call] = k
 				v.ctxs = append(v.ctxs, k)
 			}
 		}
 	}
 	return v
+}
+
+// expandDefers registers, for every exit of cx.fn, the deferred in-module
+// callees (static functions and function literals) that may run there.
+func (v *c14View) expandDefers(cx *c14Ctx, expand func(g *ssa.Function) bool) {
+	var defers []*ssa.Defer
+	var exits []*ssa.RunDefers
+	AllInstrs(cx.fn, func(in ssa.Instruction) {
+		switch x := in.(type) {
+		case *ssa.Defer:
+			if g := StaticCallee(x); g != nil && len(g.Blocks) > 0 && expand(g) {
+				defers = append(defers, x)
+			}
+		case *ssa.RunDefers:
+			exits = append(exits, x)
+		}
+	})
+	if len(defers) == 0 {
+		return
+	}
+	cx.dkids, cx.dmust = map[*ssa.RunDefers][]*c14Ctx{}, map[*c14Ctx]bool{}
+	for _, r := range exits {
+		for i := len(defers) - 1; i >= 0; i-- {
+			d := defers[i]
+			if !Reachable(d, r) {
+				continue
+			}
+			g := StaticCallee(d)
+			rec := false
+			for p := cx; p != nil; p = p.parent {
+				if p.fn == g {
+					rec = true
+				}
+			}
+			if rec {
+				continue
+			}
+			k := &c14Ctx{parent: cx, site: d, at: r, fn: g, depth: cx.depth + 1, kids: map[*ssa.Call]*c14Ctx{}}
+			cx.dkids[r] = append(cx.dkids[r], k)
+			cx.dmust[k] = MustPass(r, newCut().Instr(d))
+			v.ctxs = append(v.ctxs, k)
+		}
+	}
+}
+
+// AddRoot adds fn as a further entry point of the view (a callback the root's
+// callees run): its body and helpers become part of the view; its returns are exits.
+func (v *c14View) AddRoot(fn *ssa.Function, maxDepth int, expand func(g *ssa.Function) bool) {
+	if fn == nil || len(fn.Blocks) == 0 || v.Has(fn) {
+		return
+	}
+	if expand == nil {
+		expand = func(g *ssa.Function) bool { return inModule(g) }
+	}
+	sub := c14NewViewV(fn, maxDepth, expand, nil)
+	for _, cx := range sub.ctxs {
+		v.ctxs = append(v.ctxs, cx)
+		v.byFn[cx.fn] = append(v.byFn[cx.fn], cx)
+	}
+	v.roots = append(v.roots, fn)
 }
 
 // Funcs lists the functions present in the view (root first, then by name).
@@ -111,6 +181,15 @@ func (v *c14View) Funcs() []*ssa.Function {
 }
 
 func (v *c14View) Has(f *ssa.Function) bool { return len(v.byFn[f]) > 0 }
+
+func (v *c14View) isRoot(f *ssa.Function) bool {
+	for _, r := range v.roots {
+		if r == f {
+			return true
+		}
+	}
+	return f == v.Root
+}
 
 // Inlined reports whether call is expanded in the view.
 func (v *c14View) Inlined(call ssa.CallInstruction) bool {
@@ -212,13 +291,30 @@ func (v *c14View) walk(starts []c14Pt, target func(ssa.Instruction) bool, cu *cu
 					stack = append(stack, c14Pt{k, k.fn.Blocks[0], 0})
 					done = true
 				}
+			case *ssa.RunDefers:
+				if ds := pt.ctx.dkids[x]; len(ds) > 0 {
+					stack = append(stack, v.deferChain(pt.ctx, x, 0)...)
+					done = true
+				}
 			case *ssa.Return:
-				if pt.ctx.parent == nil {
+				switch {
+				case pt.ctx.parent == nil:
 					if toExit {
 						return true, in
 					}
-				} else {
-					s := pt.ctx.site
+				case pt.ctx.at != nil:
+					// a deferred callee returns: the next deferred callee, or the rest of the exit
+					par := pt.ctx.parent
+					ds := par.dkids[pt.ctx.at]
+					next := len(ds)
+					for j, k := range ds {
+						if k == pt.ctx {
+							next = j + 1
+						}
+					}
+					stack = append(stack, v.deferChain(par, pt.ctx.at, next)...)
+				default:
+					s := pt.ctx.site.(*ssa.Call)
 					stack = append(stack, c14Pt{pt.ctx.parent, s.Block(), instrIndex(s) + 1})
 				}
 				done = true
@@ -237,6 +333,23 @@ func (v *c14View) walk(starts []c14Pt, target func(ssa.Instruction) bool, cu *cu
 		}
 	}
 	return false, nil
+}
+
+// deferChain: the points control may continue at when exit r of cx has run the
+// first `from` deferred callees: the next one (and, if its defer statement is
+// not executed on every path to r, also what follows it), or the instruction
+// after the rundefers.
+func (v *c14View) deferChain(cx *c14Ctx, r *ssa.RunDefers, from int) []c14Pt {
+	ds := cx.dkids[r]
+	var out []c14Pt
+	for j := from; j < len(ds); j++ {
+		k := ds[j]
+		out = append(out, c14Pt{k, k.fn.Blocks[0], 0})
+		if cx.dmust[k] {
+			return out
+		}
+	}
+	return append(out, c14Pt{cx, r.Block(), instrIndex(r) + 1})
 }
 
 func c14Is(to ssa.Instruction) func(ssa.Instruction) bool {
@@ -298,7 +411,13 @@ func (v *c14View) ExitFromEntry(cu *cut) bool {
 // call sites in the view), results of inlined calls (the callee's returned
 // values), captured variables of closures, and fields of struct objects that
 // merely carry values between functions of the view.
-func (v *c14View) Leaves(val ssa.Value) []ssa.Value {
+func (v *c14View) Leaves(val ssa.Value) []ssa.Value { return v.leaves(val, true) }
+
+// LeavesShallow is Leaves without looking into the results of inlined calls
+// (a call result stays a leaf): used to find which helper produced a value.
+func (v *c14View) LeavesShallow(val ssa.Value) []ssa.Value { return v.leaves(val, false) }
+
+func (v *c14View) leaves(val ssa.Value, intoCalls bool) []ssa.Value {
 	var out []ssa.Value
 	seen := map[ssa.Value]bool{}
 	var rec func(x ssa.Value, depth int)
@@ -321,7 +440,7 @@ func (v *c14View) Leaves(val ssa.Value) []ssa.Value {
 					continue
 				}
 				f := u.Parent()
-				if f != v.Root && v.Has(f) {
+				if f != v.Root && v.Has(f) && !v.isRoot(f) {
 					idx := -1
 					for i, p := range f.Params {
 						if p == u {
@@ -330,8 +449,8 @@ func (v *c14View) Leaves(val ssa.Value) []ssa.Value {
 					}
 					n := 0
 					for _, cx := range v.byFn[f] {
-						if cx.site != nil && !cx.virtual && idx >= 0 && idx < len(cx.site.Call.Args) {
-							rec(cx.site.Call.Args[idx], depth+1)
+						if cx.site != nil && !cx.virtual && idx >= 0 && idx < len(cx.site.Common().Args) {
+							rec(cx.site.Common().Args[idx], depth+1)
 							n++
 						}
 					}
@@ -340,7 +459,7 @@ func (v *c14View) Leaves(val ssa.Value) []ssa.Value {
 					}
 				}
 			case *ssa.Call:
-				if g := StaticCallee(u); g != nil && v.inlinedStatic(u) && g.Signature.Results().Len() == 1 {
+				if g := StaticCallee(u); intoCalls && g != nil && v.inlinedStatic(u) && g.Signature.Results().Len() == 1 {
 					for _, ret := range Returns(g) {
 						rec(ret.Results[0], depth+1)
 					}
@@ -348,7 +467,7 @@ func (v *c14View) Leaves(val ssa.Value) []ssa.Value {
 				}
 			case *ssa.Extract:
 				if call, ok := u.Tuple.(*ssa.Call); ok {
-					if g := StaticCallee(call); g != nil && v.inlinedStatic(call) {
+					if g := StaticCallee(call); intoCalls && g != nil && v.inlinedStatic(call) {
 						for _, ret := range Returns(g) {
 							if u.Index < len(ret.Results) {
 								rec(ret.Results[u.Index], depth+1)
@@ -486,20 +605,40 @@ func (v *c14View) Aliases(val ssa.Value) map[ssa.Value]bool {
 							continue
 						}
 						for _, cx := range v.byFn[f] {
-							if cx.site == nil || cx.virtual {
+							site, isCall := cx.site.(*ssa.Call)
+							if !isCall || cx.virtual {
 								continue
 							}
 							if len(u.Results) == 1 {
-								if !out[cx.site] {
-									work = append(work, cx.site)
+								if !out[site] {
+									work = append(work, site)
 								}
-							} else if ex := ResultOf(cx.site, i); ex != nil && !out[ex] {
+							} else if ex := ResultOf(site, i); ex != nil && !out[ex] {
 								work = append(work, ex)
 							}
 						}
 					}
 				}
 			}
+		}
+	}
+	return out
+}
+
+// StrictAliases: the aliases of val that denote nothing but val (phis merging
+// it with other values are dropped).
+func (v *c14View) StrictAliases(val ssa.Value) map[ssa.Value]bool {
+	out := map[ssa.Value]bool{}
+	for a := range v.Aliases(val) {
+		ls := v.Leaves(a)
+		ok := len(ls) > 0
+		for _, l := range ls {
+			if l != val {
+				ok = false
+			}
+		}
+		if ok || a == val {
+			out[a] = true
 		}
 	}
 	return out
